@@ -52,7 +52,7 @@ def billing_cases(draw):
     for pos in draw(st.lists(st.integers(0, n - 1), max_size=max(1, (n - 2) // 4), unique=True)):
         lengths[pos] = draw(odd)
     c = {"kind": "billing", "tz": tz, "cycle": cyc, "lengths": lengths, "start_day": draw(st.integers(0, 600)),
-         "entry": draw(st.sampled_from(["frame", "from_series", "from_series_hourly_T"])),
+         "entry": draw(st.sampled_from(["frame", "from_series", "from_series_hourly_T"])), "T_utc": draw(st.booleans()),
          "useed": draw(st.integers(0, 2 ** 20)), "baseline": draw(st.booleans()),
          # gas meters may bill exactly zero for a period
          "zero_bill": draw(st.sampled_from([None, None, 0, 1, 2]))}
@@ -117,6 +117,8 @@ def judge_billing(c, rec):
             else:
                 tidx = pd.date_range(reads[0].tz_convert("UTC"), reads[-1].tz_convert("UTC"), freq="h").tz_convert(tz)
             T = pd.Series(50 + 20 * rng.random(len(tidx)), index=tidx, name="temp")
+            if c.get("T_utc"):
+                T = T.tz_convert("UTC")  # the weather feed in UTC, the meter in local time: days stay local calendar days
             data = Base.from_series(meter, T, is_electricity_data=c.get("zero_bill") is None)
     o = data.df["observed"] if "observed" in data.df else pd.Series(np.nan, index=data.df.index)  # every period dropped
     local_date = pd.Series(o.index.tz_localize(None).normalize(), index=o.index)
@@ -158,7 +160,9 @@ def subdaily_cases(draw):
     step = draw(st.sampled_from([15, 30, 60]))
     nd = draw(st.one_of(st.integers(3, 12), st.integers(12, 60)))
     c = {"kind": "subdaily", "tz": tz, "step": step, "nd": nd, "vseed": draw(st.integers(0, 2 ** 20)),
-         "entry": draw(st.sampled_from(["frame", "from_series", "as_freq"]))}
+         "entry": draw(st.sampled_from(["frame", "from_series", "as_freq"])), "T_utc": draw(st.booleans()),
+         # the series may begin part-way through its first day (aligned to the reading interval, not to midnight)
+         "h0_slots": draw(st.sampled_from([0, 0, 0, 1, 5, 19, 30]))}
     if tz in DST_DATES and draw(st.booleans()):
         c["d0"] = str((pd.Timestamp(draw(st.sampled_from(DST_DATES[tz]))) - pd.Timedelta(days=draw(st.integers(0, nd - 2)))).date())
     else:
@@ -166,7 +170,8 @@ def subdaily_cases(draw):
     per_day = 24 * 60 // step
     # blocks: (day, first slot, length in slots, kind)
     c["blocks"] = draw(st.lists(st.tuples(st.integers(0, nd - 2), st.integers(0, per_day - 1),
-                                          st.one_of(st.integers(1, per_day // 2 - 1), st.sampled_from([per_day // 2 - 1, per_day // 2, per_day // 2 + 1, per_day, per_day + 3])),
+                                          st.one_of(st.integers(1, per_day // 2 - 1), st.sampled_from([per_day // 2 - 1, per_day // 2, per_day // 2 + 1, per_day, per_day + 3,
+                                                                                                         2 * per_day, 3 * per_day + 5])),  # up to a three-day outage
                                           st.sampled_from(["nan", "absent", "zero"])), max_size=4))
     return c
 
@@ -193,8 +198,10 @@ def subdaily_build(c):
             v[a:a + ln] = 0.0  # gas meters: zero usage is a measurement (a whole day can sum to exactly 0)
         else:
             keep[a:a + ln] = False
-    keep[0] = keep[-1] = True
-    v[0] = 5.0 if np.isnan(v[0]) else v[0]
+    h0 = min(int(c.get("h0_slots", 0)), 24 * 60 // c["step"] - 1) if c.get("entry") != "as_freq" else 0
+    keep[:h0] = False
+    keep[h0] = keep[-1] = True
+    v[h0] = 5.0 if np.isnan(v[h0]) else v[h0]
     m = pd.Series(v, index=idx)[keep]
     return days, m
 
@@ -234,16 +241,36 @@ def judge_subdaily(c, rec):
         return
     rng = np.random.default_rng(c["vseed"] + 1)
     Tv = pd.Series(50 + 20 * rng.random(len(m)), index=m.index)
+    present = m.dropna()
+    if len(present) > 1 and pd.Series(present.index).diff().median() >= pd.Timedelta(days=1):
+        # so little is left of the sub-daily series that its typical spacing is a day or more: what kind of data this is
+        # cannot be told any more (the daily class reads it as bills and refuses it); counted, not judged
+        rec.note("degenerate-mostly-absent-series")
+        rec.case(c, False, cls + ["degenerate"])
+        return
     with contextlib.redirect_stdout(io.StringIO()):
         if c["entry"] == "frame":
             data = em.DailyBaselineData(pd.DataFrame({"observed": m, "temperature": Tv}), is_electricity_data=False)
         else:
             full = pd.date_range(days[0].tz_convert("UTC"), days[-1].tz_convert("UTC"), freq="h", inclusive="left").tz_convert(tz)
-            data = em.DailyBaselineData.from_series(m.rename("observed"), pd.Series(50 + 20 * rng.random(len(full)), index=full, name="temperature"),
-                                                    is_electricity_data=False)
+            feed = pd.Series(50 + 20 * rng.random(len(full)), index=full, name="temperature")
+            if c.get("T_utc"):
+                feed = feed.tz_convert("UTC")
+            data = em.DailyBaselineData.from_series(m.rename("observed"), feed, is_electricity_data=False)
     o = data.df["observed"] if "observed" in data.df else pd.Series(np.nan, index=data.df.index)  # no valid day at all
+    # the frame's rows are the local days of the data, once each, stamped at the start of the day
+    lv, fv = m.last_valid_index(), m.first_valid_index()
+    k_last = int(days.searchsorted(lv, side="right") - 1)  # the day of the last reading: its interval is open-ended
+    k_first = int(days.searchsorted(fv, side="right") - 1)
+    # from_series trims missing readings at both ends (documented); the frame constructor keeps the caller's span
+    want_days = days[k_first:k_last + 1] if c["entry"] == "from_series" else days[:c["nd"]]
+    if not (len(data.df.index) == len(want_days) and (data.df.index == want_days).all()):
+        extra = data.df.index.difference(want_days)
+        lost = want_days.difference(data.df.index)
+        rec.violation(key + "/day-rows", c, "frame has %d rows for %d local days; rows that are no day start: %s; days without a row: %s" % (
+            len(data.df.index), len(want_days), [str(x) for x in extra[:3]], [str(x) for x in lost[:3]]))
     kinds = set()
-    for k in range(c["nd"] - 1):  # the final day's last interval is open-ended
+    for k in range(k_first if c["entry"] == "from_series" else 0, min(c["nd"] - 1, k_last)):  # the final day's last interval is open-ended
         a, b = days[k], days[k + 1]
         seg = m[(m.index >= a) & (m.index < b)]
         slots = int((b - a) / step)
